@@ -164,7 +164,15 @@ class Table:
         for need in (("close_all_connections", "conn_list"), ("MHD_cleanup_connections", "cleanup_list")):
             if not any((fn, lst) == need for fn, _l, _k, lst, _kind in loops):
                 cursor_bad.append("%s: the loop over %s that releases the mutex around the join was not found" % need)
-        return {"unlock_loops": ["%s:%d %s %s %s" % x for x in loops], "cursor_carried": cursor_bad,
+        wr = set(getattr(self.world, "lock_wrappers", []))
+        exits_bad = ["%s:%d %s can return with %s %s held%s" % (
+            self.world.defs[fn].file, ln, fn, lk_, "certainly" if must else "possibly",
+            "" if any(e["kind"] == "lock" and e["lock"] == lk_ for e in self.world.defs[fn].events) else " (left held by a callee)")
+            for fn, lk_, ln, must in getattr(self.world, "exits_holding", []) if (fn, lk_) not in wr]
+        # the function that takes the lock itself first: that is where the unlock is missing
+        exits_bad.sort(key=lambda x: "(left held by a callee)" in x)
+        return {"exits_holding_lock": exits_bad, "lock_wrappers": sorted("%s %s" % x for x in wr),
+                "unlock_loops": ["%s:%d %s %s %s" % x for x in loops], "cursor_carried": cursor_bad,
                 "have_new_unpaired": flag_unpaired, "resume_result_discarded": resume_bad,
                 "resume_wait_sites": ["%s:%d tpcOnly=%s feeds=%s" % x for x in self.world.resume_sites],
                 "lock_order_edges": sorted("%s -> %s  (%s)" % (a, b, edge_sites[(a, b)]) for a in edges for b in edges[a]),
@@ -252,7 +260,7 @@ class Spec:
                          "Mhd.C18.callbacks_unlocked", "Mhd.C18.have_new_paired", "Mhd.C18.resume_forces_zero_timeout", "Mhd.C18.stop_sequence", "Mhd.C18.stop_invariant",
                          "Mhd.C18.stop_progress", "Mhd.C18.stop_bounded", "Mhd.C18.stop_final",
                          "Mhd.C18.notified_at_most_once", "Mhd.C18.tpc_stop_terminates",
-                         "Mhd.C18.tpc_stop_unfixed_witness", "Mhd.C18.per_ip_and_nonce_under_mutex",
+                         "Mhd.C18.tpc_stop_unfixed_witness", "Mhd.C18.per_ip_and_nonce_under_mutex", "Mhd.C18.locks_released_on_every_path",
                          "Mhd.C18.cursor_not_carried_across_unlock", "Mhd.C18.tpc_join_every_thread",
                          "Mhd.C18.tpc_join_carried_cursor_witness"]
     trusted_base = ["Lean 4 kernel; axioms propext / Classical.choice / Quot.sound at most (audited per theorem)",
@@ -330,7 +338,7 @@ class Spec:
         res = {}
         for line in out.splitlines():
             if line.startswith("result "):
-                res = dict(w.split("=", 1) for w in line.split()[1:] if "=" in w)
+                res.update(dict(w.split("=", 1) for w in line.split()[1:] if "=" in w))
         return {"argv": argv[1:], "rc": rc, "res": res, "stderr": err, "wall": round(time.time() - t0, 2)}
 
     def judge(self, run, failures, stats):
@@ -345,7 +353,7 @@ class Spec:
             return
         for k in ("req_ok", "conn_add", "conn_tcp", "susp", "resume", "auth_chk", "cb_blocks", "post", "opt", "abort",
                   "handler", "completed", "conn_started", "conn_closed", "fd", "auth_ok", "auth_stale", "auth_respwrong",
-                  "auth_noncewrong", "auth_ok_sent", "ip_bind_fail", "body_mismatch", "quietresume_retry", "stagger_runs", "stagger_conns", "stagger_closed_once"):
+                  "auth_noncewrong", "auth_ok_sent", "ip_bind_fail", "body_mismatch", "quietresume_retry", "mixed_len", "auth_md5_sent", "auth_sha256_sent", "stagger_runs", "stagger_conns", "stagger_closed_once"):
             st[k] += int(res.get(k, 0) or 0)
         if "stop_ms" in res:
             st["stop_ms_max"] = max(st["stop_ms_max"], int(res["stop_ms"]))
@@ -354,7 +362,7 @@ class Spec:
         if res.get("nnc_size") and int(res.get("auth_chk", 0) or 0) > 0:
             st["nnc%s_runs" % res["nnc_size"]] += 1
             stats.setdefault("auth_by_nnc", {}).setdefault(res["nnc_size"], collections.Counter()).update(
-                {k: int(res.get(k, 0) or 0) for k in ("auth_chk", "auth_ok", "auth_stale", "auth_respwrong", "auth_noncewrong")})
+                {k: int(res.get(k, 0) or 0) for k in ("auth_chk", "auth_ok", "auth_stale", "auth_respwrong", "auth_noncewrong", "mixed_len")})
         if "ip_addrs" in res:
             st["ip_addrs_max"] = max(st["ip_addrs_max"], int(res["ip_addrs"]))
         if "stagger_stop_ms_max" in res:
@@ -377,6 +385,15 @@ class Spec:
                                          "deterministic scenario (second MHD_add_connection issued from inside the NOTIFY_STARTED callback of the first, "
                                          "i.e. while the daemon thread is in new_connections_list_process_): no reply on one of the two connections within "
                                          "2 s.  mode=%s pool=%s %s" % (mode, pool, json.dumps(res)), inp, "locks"))
+        if res.get("mixnonce") in ("0", "1"):
+            st["mixnonce_runs"] += 1
+        if res.get("mixnonce") == "1":
+            failures.append(vlib.Failure("oracle", "digest: no (or a wrong) reply after a mixed-length nonce slot collision pool=%s" % pool,
+                                         "deterministic scenario (one daemon, MD5 and SHA-256 digest auth on a ONE-slot nonce table: MD5 nonce accepted with nc=1, a "
+                                         "SHA-256 challenge takes over the slot, the MD5 nonce is presented again with nc=2 -> must be answered 401 stale; then "
+                                         "a new challenge must be issued and accepted): failed at step %s of 6 (1 MD5 challenge, 2 nc=1, 3 SHA-256 challenge, "
+                                         "4 old nonce nc=2, 5 new challenge, 6 nc=1 on it); no reply within 2.5 s = a digest operation blocks on nnc_lock.  "
+                                         "mode=%s pool=%s %s" % (res.get("mixnonce_step"), mode, pool, json.dumps(res)), inp, "locks"))
         if res.get("quietresume") in ("0", "1"):
             st["quietresume_runs"] += 1
             st["quietresume_ms_max"] = max(st["quietresume_ms_max"], int(res.get("quietresume_ms", 0) or 0))
@@ -429,6 +446,11 @@ class Spec:
                                          {"table": "lean/Mhd/Gen/Locks.lean", "cycle": c}, "locks"))
         for b in static["blocking_with_lock"][:5]:
             failures.append(vlib.Failure("diff", "locks: blocking call with a mutex possibly held", b, {"table": "lean/Mhd/Gen/Locks.lean", "site": b}, "locks"))
+        for x in static["exits_holding_lock"][:4]:
+            failures.append(vlib.Failure("diff", "locks: function can return with a mutex held: " + re.sub(r":\d+", ":N", x.split(" ", 1)[1])[:90],
+                                         x + "\n(the mutex stays owned for ever: the next operation that needs it blocks, MHD_stop_daemon() does not return)\n"
+                                         "all such exits: " + "; ".join(static["exits_holding_lock"][:30]),
+                                         {"table": "lean/Mhd/Gen/Locks.lean", "site": x}, "locks"))
         for x in static["cursor_carried"]:
             failures.append(vlib.Failure("diff", "locks: list cursor carried across an unlock window: " + re.sub(r":\d+", ":N", x.split(":", 2)[-1].strip())[:90], x +
                                          "\n(other threads move connections between the lists while the mutex is released; see "
@@ -457,6 +479,9 @@ class Spec:
         for mode in ("select", "poll"):
             for k in range(3 if thorough else 1):
                 jobs.append((mode, "tpc", 0, 0, k + 1, "stagger"))
+        # deterministic: two digest algorithms on a one-slot nonce table (mixed-length slot collision), then the stop
+        for (mode, pool) in (("select", "4"), ("poll", "1"), ("epoll", "4"), ("poll", "tpc")):
+            jobs.append((mode, pool, 0, 0, 1, "add,auth,mixnonce"))
         # corpus first: configurations that exposed defects before
         cdir = os.path.join(vlib.VERIF, "corpus", "locks")
         ncorp = 0
@@ -491,11 +516,16 @@ class Spec:
                     tot[k_] += n_
         scen = {
             "a_digest_auth_shared_nonce_table": {
-                "what": "MHD_digest_auth_check3 + MHD_queue_auth_required_response3 from every worker / connection thread on ONE nonce table of 8 or 64 slots "
+                "what": "MHD_digest_auth_check3 + MHD_queue_auth_required_response3 from every worker / connection thread on ONE nonce table of 1, 8 or 64 slots, MD5 and SHA-256 clients mixed "
                         "nonce table (nnc_lock); wrong and right answers; stale = slot taken over by another nonce (collision) or nc replay",
                 "checks": tot["auth_chk"], "ok": tot["auth_ok"], "stale_or_collision": tot["auth_stale"],
                 "response_wrong": tot["auth_respwrong"], "nonce_wrong": tot["auth_noncewrong"],
                 "by_nonce_table_size": {k: dict(v) for k, v in stats.get("auth_by_nnc", {}).items()},
+                "algorithms": {"md5_answers_sent": tot["auth_md5_sent"], "sha256_answers_sent": tot["auth_sha256_sent"],
+                               "mixed_length_collisions": tot["mixed_len"],
+                               "mixed_length_rule": "an MD5 nonce (44 chars) presented while the nonce most recently handed out by the daemon was a SHA-256 "
+                                                    "one (76 chars); exact for the 1-slot table, ~1/size otherwise; counted per table size below",
+                               "mixnonce_scenario_runs": tot["mixnonce_runs"]},
                 "outcomes": "ok / response_wrong = the nonce was found in its slot and the nonce-counter bitmap was updated; stale / nonce_wrong = the "
                             "slot holds another nonce (collision, taken over) or the nc was replayed",
                 "threads": "pool of 4 workers / one thread per connection, %d client threads" % clients},
@@ -523,7 +553,7 @@ class Spec:
                "exhaustive": False, "corpus_runs": ncorp,
                "PROVED_by_lean_over_regenerated_table": {
                    "what": "context certificate; lock order ranked => no wait cycle / progress in the abstract thread model; no lock "
-                           "held at join/select/poll/epoll_wait; lockset discipline (partial, with witness); writes protected; per-IP tree "
+                           "held at join/select/poll/epoll_wait; every lock released on every path to a function exit (lock wrappers excepted); lockset discipline (partial, with witness); writes protected; per-IP tree "
                            "and nonce table under their mutex without exception; callbacks; stop sequencing; shutdown state machine "
                            "(invariant, progress, bound, clean end, notified once); no list cursor carried across an unlock window => "
                            "the thread-per-connection stop joins every thread under any interleaving of thread exits (+ witness)",
